@@ -57,3 +57,4 @@ Print Assumptions C06_runtime_unique.
 Print Assumptions C06_memberships_coherent.
 Print Assumptions C06_delete_removes_nested.
 Print Assumptions C06_delete_keeps_siblings.
+Print Assumptions C06_memberships_nonvacuous.
